@@ -1125,6 +1125,7 @@ func checkC06(p *Prog, r *Report) {
 	ruleChecksOnLoadPath(p, m, r, uf)
 	ruleOptionalBanner(p, m, r)
 	ruleHAFailClosed(p, r)
+	ruleBannerPatternComplete(p, r)
 	ruleAllowListedCommands(p, m, r, "R06.6")
 	ruleNoReflection(p, r)
 	r.Trusted = append(trustedCallGraph,
@@ -1537,4 +1538,30 @@ func ruleHAFailClosed(p *Prog, r *Report) {
 			"the HA check fails open: a device whose HA state cannot be determined is treated as active")
 	}
 	r.floor("R06.8", "positive verdicts of the HA check", n, 2)
+}
+
+// ruleBannerPatternComplete: R06.9.
+func ruleBannerPatternComplete(p *Prog, r *Report) {
+	r.rule("R06.9", "The marker pattern is the complete configured value: every store into program.Config.CheckBanner is controlled by the test that the option has exactly one value (1 == len(values)), and the compiled string is that value. (Compiling only the first word of a multi-word banner weakens the unmanaged-device check: any banner containing that word passes.)")
+	n := 0
+	for _, fn := range allModFuncs(p) {
+		if pkgOfFunc(fn) != "program" {
+			continue
+		}
+		for _, gs := range guardSitesOf(p, fn) {
+			if gs.Name != "store:program.Config.CheckBanner" {
+				continue
+			}
+			n++
+			ok := false
+			for _, g := range guardSet(gs.In) {
+				if strings.HasPrefix(g, "1 == len(") || strings.HasPrefix(g, "len(") && strings.HasSuffix(g, " == 1") {
+					ok = true
+				}
+			}
+			r.add("R06.9", "banner-pattern-whole-value|"+fnDisplay(fn), p.ipos(gs.In), "CheckBanner is compiled only when the option has exactly one value", ok,
+				"a banner text with blanks is cut down to its first word: devices whose banner merely contains that word count as managed")
+		}
+	}
+	r.floor("R06.9", "stores into Config.CheckBanner", n, 1)
 }
